@@ -1,5 +1,13 @@
 """C11 - the ground-program builder preserves Boolean meaning.
 
+(1) Layer B: spec/FormulaBuilder.tla (state machine transcribed from LogicFormula) is model-checked by TLC for five option
+    vectors: MeaningPreserved (C11 on the design) holds in every state of every call history within the bound.
+(2) spec -> code: EVERY history TLC explored is exported and replayed on the real LogicFormula; returned keys and node
+    tables must be the model's.  Where they are, TLC's exhaustive verdict transfers to the code for that history; where
+    they are not (drift), the recorded real history is judged by Layer A (JudgeBuilder.tla), which alone can say VIOLATION.
+(3) code -> spec: the random / scenario histories below are also validated step by step against the model
+    (JudgeBuilderTrace.tla); mismatches are reported as drift.
+
 Histories of add_atom / add_and / add_or (readonly, mutable) / add_disjunct / negate / add_name are executed on a real
 LogicFormula under option vectors; after every call the real node table and returned key are recorded and TLC
 (spec/JudgeBuilder.tla over spec/AOG.tla) compares, for every assignment of the atoms, the well-founded value of every
@@ -7,7 +15,8 @@ key returned so far with the value its call has in the ideal (no folding, no sha
 import json
 import random
 
-from .. import pl, tlc
+from .. import mc, pl, tlc
+from ..tlc import MachineryError
 
 OPTS = [
     {}, {"keep_order": True}, {"keep_duplicates": True}, {"avoid_name_clash": True}, {"keep_all": True},
@@ -17,8 +26,8 @@ OPTS = [
 
 
 def neg_dep(calls, src, dst):
-    """does call `src` depend on call `dst` through an odd number of negations (or through any path if mixed)?"""
-    # edges: i -> (j, sign)
+    """does call `src` reach call `dst` along a dependency path that uses at least one negated reference?
+    (the engine raises NegativeCycle for any cycle through a negation, even or odd: FormulaBuilder!NegDep)"""
     edges = {}
     for i, c in enumerate(calls, start=1):
         tgt = i
@@ -28,15 +37,15 @@ def neg_dep(calls, src, dst):
             if r["k"] == "c":
                 edges.setdefault(tgt, set()).add((r["i"], r["s"]))
     seen = set()
-    todo = [(src, 1)]
+    todo = [(src, 0)]
     while todo:
-        n, pol = todo.pop()
-        if (n, pol) in seen:
+        n, used = todo.pop()
+        if (n, used) in seen:
             continue
-        seen.add((n, pol))
+        seen.add((n, used))
         for (j, s) in edges.get(n, ()):
-            todo.append((j, pol if s == 1 else 1 - pol))
-    return (dst, 0) in seen
+            todo.append((j, 1 if s == 0 else used))
+    return (dst, 1) in seen
 
 
 def gen_history(rng, maxlen):
@@ -172,7 +181,101 @@ SC_OPTS = [{}, {"max_arity": 1}, {"max_arity": 2}, {"max_arity": 3}, {"keep_orde
            {"avoid_name_clash": True}, {"keep_duplicates": True, "max_arity": 2}]
 
 
+
+MC_VARIANTS = [("FormulaBuilder_small.cfg", {}), ("FormulaBuilder_maxarity.cfg", {"max_arity": 2}),
+               ("FormulaBuilder_keepdup.cfg", {"keep_duplicates": True, "max_arity": 2}),
+               ("FormulaBuilder_keepall.cfg", {"keep_all": True}), ("FormulaBuilder_nocompact.cfg", {"auto_compact": False})]
+MC_BIG = [("FormulaBuilder_big.cfg", {}), ("FormulaBuilder_big_maxarity.cfg", {"max_arity": 2})]
+
+
+def model_and_replay(ctx, cov):
+    """(1) + (2): model-check, export every explored history, replay on the real class."""
+    runs = [("FormulaBuilderMC", cfg, True) for cfg, _ in MC_VARIANTS]
+    if ctx.tier == "thorough":
+        runs += [("FormulaBuilderMC", cfg, True) for cfg, _ in MC_BIG]
+    R = mc.check_cfgs(runs, nproc=ctx.nproc, timeout=ctx.pick(900, 7200), parallel=ctx.pick(5, 3))
+    cov["states"] = sum(r["states"] for r in R.values())
+    cov["transitions"] = sum(r["transitions"] for r in R.values())
+    cov["model_configs"] = {cfg: {"states": r["states"], "depth": r["depth"]} for cfg, r in R.items()}
+    jobs, meta = [], []
+    for cfg, opts in MC_VARIANTS:
+        for h in mc.exported(R[cfg]["out"]):
+            calls = [{k: v for k, v in c.items() if k != "ret"} for c in h["hist"]]
+            jobs.append(("builder_history", {"calls": calls, "opts": opts}))
+            meta.append((cfg, opts, h))
+    if not jobs:
+        raise MachineryError("no histories exported by the model-checking runs")
+    res = pl.run_jobs(jobs, nproc=ctx.nproc, timeout=60, chunksize=256)
+    drift = []
+    for (cfg, opts, h), r in zip(meta, res):
+        ctx.evaluations += 1
+        if r.get("error"):
+            if r.get("inconclusive"):
+                ctx.inconclusive += 1
+                continue
+            ctx.violation({"clause": "crash", "error": r["error"], "site": r.get("site", ""), "options": "+".join(sorted(opts))},
+                          "builder history explored by TLC raised %s: %s\ncalls=%s opts=%s" % (r["error"], r.get("msg"), h["hist"], opts),
+                          {"calls": [{k: v for k, v in c.items() if k != "ret"} for c in h["hist"]], "opts": opts})
+            continue
+        same = all(a["ret"] == b["ret"] for a, b in zip(h["hist"], r["calls"])) and \
+            [(n["t"], n["ch"], n["id"] if n["t"] == "atom" else "") for n in h["nodes"]] == \
+            [(n["t"], n["ch"], n["id"] if n["t"] == "atom" else "") for n in r["calls"][-1]["nodes"]]
+        if not same:
+            drift.append((cfg, opts, h, r))
+    cov["spec_histories_replayed_on_impl"] = len(jobs)
+    cov["spec_histories_where_impl_differs_from_model"] = len(drift)
+    if drift:
+        # the model no longer describes the code on these histories: TLC's verdict does not transfer; judge the real data
+        cases = [{"id": i, "calls": r["calls"]} for i, (_, _, _, r) in enumerate(drift)]
+        J = tlc.judge_batch("JudgeBuilder", cases, nproc=ctx.nproc, tag="c11d")
+        for i, (cfg, opts, h, r) in enumerate(drift):
+            j = J[i]
+            calls = [{k: v for k, v in c.items() if k not in ("ret", "nodes")} for c in r["calls"]]
+            if i < 3:
+                print("DRIFT property=C11 model FormulaBuilder (%s) and LogicFormula disagree on history %s: model keys %s, real keys %s" % (
+                    cfg, json.dumps(calls)[:400], [c["ret"] for c in h["hist"]], [c["ret"] for c in r["calls"]]))
+            if not j["ok"]:
+                ctx.violation({"clause": "meaning-changed", "options": "+".join(sorted(opts)), "keep_all": bool(opts.get("keep_all"))},
+                              "history explored by TLC: after call %d, key returned by call %d differs from its ideal meaning under "
+                              "assignment %s\ncalls=%s\nopts=%s\nreal nodes=%s" % (j["prefix"], j["call"], j["asg"], json.dumps(calls), opts,
+                                                                                   json.dumps(r["calls"][j["prefix"] - 1]["nodes"])),
+                              {"calls": calls, "opts": opts})
+    return len(jobs)
+
+
+def trace_validate(ctx, cov, cases, H):
+    """(3): recorded real histories against the model, step by step."""
+    tc = []
+    for c in cases:
+        calls, opts = H[c["id"]]
+        if opts.get("avoid_name_clash") or opts.get("keep_order") and False:
+            continue
+        cc = []
+        for x in c["calls"]:
+            y = dict(x)
+            y.setdefault("mutable", 0); y.setdefault("skipped", 0); y.setdefault("target", 0); y.setdefault("det", 0); y.setdefault("id", "")
+            y.setdefault("refs", [])
+            y["mutable"] = int(y["mutable"] or 0)
+            for k in ("name", "named", "label"):
+                y.pop(k, None)
+            cc.append(y)
+        tc.append({"id": c["id"], "opt": {"ac": bool(opts.get("auto_compact", True)), "kd": bool(opts.get("keep_duplicates", False)),
+                                          "ka": bool(opts.get("keep_all", False)), "ma": int(opts.get("max_arity", 0))}, "calls": cc})
+    J = tlc.judge_batch("JudgeBuilderTrace", tc, nproc=ctx.nproc, tag="c11t")
+    bad = [J[c["id"]] for c in tc if not J[c["id"]]["ok"]]
+    cov["traces_validated_against_impl"] = len(tc)
+    cov["trace_steps_matched"] = sum(J[c["id"]]["matched"] for c in tc)
+    cov["traces_where_impl_differs_from_model"] = len(bad)
+    for b in bad[:3]:
+        calls, opts = H[b["id"]]
+        print("DRIFT property=C11 recorded history %d leaves the model at step %d (%s): calls=%s opts=%s" % (
+            b["id"], b["step"], b["what"], json.dumps(calls)[:500], opts))
+    return tc, J
+
+
 def run(ctx):
+    cov = {}
+    nreplayed = model_and_replay(ctx, cov)
     rng = random.Random(ctx.seed + 1111)
     nh = ctx.pick(1200, 20000)
     H = []
@@ -215,17 +318,35 @@ def run(ctx):
                                                                json.dumps(calls), opts,
                                                                json.dumps(c["calls"][j["prefix"] - 1]["nodes"])),
                           {"calls": calls, "opts": opts})
+    tc, TJ = trace_validate(ctx, cov, cases, H)
+    # binding demonstration: a corrupted recording must leave the model
+    if tc:
+        import copy
+        bad = copy.deepcopy(next(c for c in tc if len(c["calls"]) >= 3))
+        bad["id"] = 10 ** 6
+        bad["calls"][1]["ret"] = bad["calls"][1]["ret"] + 1 if bad["calls"][1]["ret"] not in (0,) else 7
+        bj = tlc.judge_batch("JudgeBuilderTrace", [bad], nproc=1, tag="c11s")[10 ** 6]
+        cov["self_test_corrupted_trace_rejected"] = not bj["ok"]
+        if bj["ok"]:
+            raise MachineryError("self-test: a corrupted builder trace was accepted by JudgeBuilderTrace")
     ctx.sample({"calls": H[0][0], "opts": H[0][1], "recorded_last_nodes": cases[0]["calls"][-1]["nodes"] if cases else None})
-    ctx.write_evidence("exploration", {
+    cov.update({
         "evaluations": ctx.evaluations, "distinct_nontrivial": len(nontriv),
-        "rule": "seeded random builder call histories (<= %d calls over 3 atoms, TRUE/FALSE, negation, mutable ors with "
-                "add_disjunct incl. positive cycles) x option vectors; non-trivial = uses add_disjunct or >= 3 "
-                "different operations" % ctx.pick(7, 9),
+        "rule": "every call history of FormulaBuilder.tla within the bound (2 atoms + 2 free calls, <= 2 children, 5 option "
+                "vectors) replayed on the real class, plus seeded random builder call histories (<= %d calls over 3 atoms, "
+                "TRUE/FALSE, negation, mutable ors with add_disjunct incl. positive cycles) x option vectors; non-trivial = "
+                "random history that uses add_disjunct or >= 3 different operations" % ctx.pick(7, 9),
         "option_vectors": ["+".join(sorted(o)) or "(default)" for o in OPTS],
         "tlc_judged_histories": len(cases),
-    }, assumptions=["add_disjunct's own return value is not treated as a returned key (it is None on every real update "
-                    "on the pinned tree and all in-tree callers ignore it)",
-                    "histories never create a cycle through negation (outside the builder's contract)"])
+        "exhaustive": False,
+    })
+    ctx.write_evidence("model_checking", cov,
+                       assumptions=["add_disjunct's own return value is not treated as a returned key (it is None on every real update "
+                                    "on the pinned tree and all in-tree callers ignore it)",
+                                    "histories never create a cycle through negation (outside the builder's contract)",
+                                    "node names (add_name, avoid_name_clash) are not part of the Layer-B model; histories with "
+                                    "avoid_name_clash are judged by Layer A only",
+                                    "TLC bound for the exhaustive part: 2 atoms, 2 further calls (thorough: 3), at most 2 children per call"])
 
 
 def replay(ctx, path):
